@@ -106,6 +106,12 @@ def run(args):
     for text in ('{\\"a\\":1e999,\\"b\\":2e999,\\"c\\":3e999,\\"d\\":4e999,\\"e\\":5e999}', '{\\"l\\":[{\\"p\\":1e999,\\"q\\":[2e999]},{\\"r\\":3e999}],\\"m\\":4e999}',
                  '{\\"k1\\":{\\"x\\":1e999},\\"k2\\":{\\"y\\":1e999},\\"k3\\":{\\"z\\":1e999},\\"k4\\":1e999}'):
         multi.append({"main": "fn main() { try { println(\"%s\".parse_json() as { ? }); } catch e { println(e.message); } println(\"%s\".parse_json() as { ? }); }\n" % (text, text)})
+    # a cast which is refused for several reasons at once (members of other types, members the type does not have): which one
+    # the message names is part of the result, too
+    for text, ty in (('{\\"alpha\\":\\"x\\",\\"beta\\":\\"y\\",\\"gamma\\":true,\\"delta\\":1.5,\\"eps\\":[1]}', "{ alpha: int, beta: int, gamma: int, delta: str, eps: str }"),
+                     ('{\\"a\\":1,\\"p\\":2,\\"q\\":3,\\"r\\":4,\\"s\\":5,\\"t\\":6}', "{ a: int }"),
+                     ('[{\\"m\\":\\"x\\",\\"n\\":\\"y\\",\\"o\\":\\"z\\"}]', "[{ m: int, n: int, o: int }]")):
+        multi.append({"main": "fn main() { try { let v = \"%s\".parse_json() as %s; println(\"admitted\"); } catch e { println(e.message); } let w: %s = \"%s\".parse_json(); println(\"admitted\"); }\n" % (text, ty, ty, text)})
     mreqs = []
     for mods in multi:
         for b in ("vm", "tree"):
